@@ -107,3 +107,13 @@ def run(cx):
     _run_pow2(cx)
     # g^r / g^h: the GT exponentiation is a complete square-and-multiply over the four limbs of the exponent
     S.square_multiply(cx, 'I-POW', '<impl fields::fp12::Fp12>::pow')
+
+
+_run_xor = run
+
+
+def run(cx):
+    from .. import rules_i as _I
+    _run_xor(cx)
+    # C2 = M xor K: the byte-wise XOR helper pairs equal indices over the whole length
+    _I.xor_rule(cx, 'I-XOR', 'gm_sm9::u256::xor', 'k', 'data', ('$len',))
